@@ -170,7 +170,8 @@ func pyencodeRawUnicodeEscape(s string) (string, error) {
 
 		switch {
 		// invalid UTF-8 -> cannot encode
-		case r == utf8.RuneError:
+		// (width=1 distinguishes decoding error from valid U+FFFD)
+		case r == utf8.RuneError && width == 1:
 			return "", errPyRawUnicodeEscapeInvalidUTF8
 
 		// not strictly needed for encoding to "raw-unicode-escape", but pickle does it
